@@ -295,6 +295,17 @@ def replies():
     return out
 
 
+def big_reply():
+    from dpapi_ng._rpc import _pdu as P
+    from dpapi_ng._rpc import _request as R
+
+    big = bytearray(R.Response(header=P.PDUHeader(version=5, version_minor=0, packet_type=P.PacketType.RESPONSE, packet_flags=P.PacketFlags(3), data_rep=P.DataRep(),
+                                                  frag_len=0, auth_len=0, call_id=1),
+                               sec_trailer=None, alloc_hint=1500, context_id=0, cancel_count=0, stub_data=bytes(i % 251 for i in range(1500))).pack())
+    big[8:10] = len(big).to_bytes(2, "little")
+    return bytes(big)
+
+
 def gen_cases(ctx: Ctx):
     rs = replies()
     cases = []
@@ -318,6 +329,11 @@ def gen_cases(ctx: Ctx):
         for _ in range(ctx.n(20, 400)):
             sched = [ctx.rng.randrange(1, 9) for _ in range(ctx.rng.randrange(0, n))]
             cases.append([rep + bytes(ctx.rng.randrange(256) for _ in range(ctx.rng.randrange(0, 5))), sched])
+    # a longer reply arriving one octet at a time (more than a thousand reads for one PDU), and in 3-octet reads
+    big = big_reply()
+    cases.append([big, [1] * len(big)])
+    cases.append([big + rs["response28"], [3] * (len(big) // 3 + 4)])
+    cases.append([big[:-1], [1] * len(big)])
     # malformed headers: unknown packet type, bad drep, frag_len < 16, frag_len beyond the stream, random bytes
     base = bytearray(rs["response28"])
     for (off, val) in [(2, 16), (2, 20), (2, 255), (4, 0x20), (4, 0x12), (5, 4), (8, 15), (8, 0), (8, 200), (9, 1)]:
@@ -335,7 +351,8 @@ def pred_sync(arg, out):
     """The property on the implementation itself: a complete well-formed reply decodes to the same
     PDU as in one piece; a truncated one is an error within the read budget."""
     stream, sched = arg
-    rs = replies()
+    rs = dict(replies())
+    rs["big"] = big_reply()
     for rep in rs.values():
         if bytes(stream[: len(rep)]) == rep:
             if out is None or isinstance(out[0], Err):
